@@ -1,3 +1,270 @@
-(* placeholder until Theory/CircuitThm.v lands: theorems follow *)
-From CC Require Import Model.Circuit Gen.Tables.
-Example C07_model_runs : True. Proof. exact I. Qed.
+(* C07 — "Converting a circuit to its network at angular frequency w yields exactly one branch per non-ground component,
+   with the same identifier and terminal order, whose immittance and source value are those of the component at w: R, 1/G,
+   R+jX, 1/(G+jB), jwL, 1/(jwC), V_ref^2/P for lamps and loads, A*exp(j*phi) for a source at its own frequency (the n-th
+   Fourier harmonic for a periodic source at n*w0) and a short/open circuit for a voltage/current source at any other
+   frequency.  The reference node is the ground component's node, else the first listed terminal, and no component is ever
+   silently omitted, duplicated or evaluated with another component's value."
+   Statements only; proofs are in Theory/CircuitThm.v.  Model: Model/Circuit.v; regenerated source tables: Gen/Tables.v. *)
+From Coq Require Import List Bool ZArith NArith String QArith Qcanon.
+From CC Require Import Theory.Field Theory.Complex Theory.Labels Model.Network Theory.Spec Gen.Tables Model.Circuit
+  Model.RunCircuit Theory.CircuitThm.
+Import ListNotations.
+
+(* ================= A. the model's kind tables against the tables regenerated from the Python source ================= *)
+
+(* the component types components.py can construct are exactly the model's kinds; no type string occurs twice *)
+Theorem C07_kinds :
+  (forall t, In t (map c_type component_ctors) <-> In t (map kind_name all_kinds))
+  /\ NoDup (map c_type component_ctors) /\ NoDup (map kind_name all_kinds).
+Proof. exact kinds_thm. Qed.
+Print Assumptions C07_kinds.
+
+(* `if component.type in transformers.keys()` skips no constructible type but "ground"; the table has no other key,
+   and no key twice *)
+Theorem C07_no_drop :
+  (forall c, In c component_ctors -> c_type c <> lbl "ground" -> In (c_type c) (map fst transformer_table))
+  /\ (forall t, In t (map fst transformer_table) -> In t (map c_type component_ctors) /\ t <> lbl "ground")
+  /\ NoDup (map fst transformer_table).
+Proof. exact no_drop_thm. Qed.
+Print Assumptions C07_no_drop.
+
+(* every kind is dispatched to the translator function the model's [translate] uses for it *)
+Theorem C07_dispatch : forall k, tlookup (kind_name k) transformer_table = translator_name k.
+Proof. exact dispatch_thm. Qed.
+Print Assumptions C07_dispatch.
+
+(* the constructor of every kind writes exactly the model's value keys, in the same order *)
+Theorem C07_keys_written : forall k,
+  exists c, find (fun c => label_eqb (c_type c) (kind_name k)) component_ctors = Some c
+            /\ map fst (c_values c) = keys_written k.
+Proof. exact keys_written_thm. Qed.
+Print Assumptions C07_keys_written.
+
+(* the translator of every kind reads exactly the value keys the model's translator reads *)
+Theorem C07_keys_read : forall k f, translator_name k = Some f ->
+  exists ks, tlookup f translator_reads = Some ks /\ (forall x, In x ks <-> In x (keys_read k)).
+Proof. exact keys_read_thm. Qed.
+Print Assumptions C07_keys_read.
+
+(* source tables only: whatever function a type is dispatched to has a known read set, and reads only keys which the
+   constructor of that type writes (no KeyError, no key of another component kind) *)
+Theorem C07_reads_subset_writes : forall t f, In (t, f) transformer_table ->
+  (exists ks, In (f, ks) translator_reads)
+  /\ (forall c ks, In c component_ctors -> c_type c = t -> In (f, ks) translator_reads ->
+        forall x, In x ks -> In x (map fst (c_values c))).
+Proof. exact reads_subset_thm. Qed.
+Print Assumptions C07_reads_subset_writes.
+
+(* sign guards `if p < 0: raise ValueError`.  The full statement is FALSE: Model/Circuit.v says [guarded KPerI = ["G";"w"]]
+   (like periodic_voltage_source) while components.periodic_current_source has no guard at all. *)
+Definition C07_guards_stmt (k : ckind) : Prop :=
+  exists c, find (fun c => label_eqb (c_type c) (kind_name k)) component_ctors = Some c
+            /\ (forall x, In x (c_guards c) <-> In x (guarded k)).
+Definition C07_guards_full : Prop := forall k, C07_guards_stmt k.
+Theorem C07_guards_partial : forall k, k <> KPerI -> C07_guards_stmt k.
+Proof. exact guards_partial_thm. Qed.
+Print Assumptions C07_guards_partial.
+Theorem C07_guards_periodic_current_source_differs :
+  exists c, find (fun c => label_eqb (c_type c) (kind_name KPerI)) component_ctors = Some c
+            /\ c_guards c = [] /\ guarded KPerI = [lbl "G"; lbl "w"].
+Proof. exact guards_KPerI_thm. Qed.
+Theorem C07_guards_full_is_false : ~ C07_guards_full.
+Proof. exact guards_full_fails. Qed.
+Print Assumptions C07_guards_full_is_false.
+
+(* ================= B. the translation itself (generic formally real field R; complex numbers Cx R) ================= *)
+
+Theorem C07_ground_only_kind_without_translator : forall k, has_translator k = false <-> k = KGround.
+Proof. exact has_translator_false. Qed.
+
+(* one branch per non-ground component: same identifiers in the same order, hence same count, no duplicate, none dropped,
+   none invented *)
+Theorem C07_one_each : forall (R : fops) leb rnd ofZ (cs : list (comp R)) (w wres : R) (n : network (Cx R)),
+  transform_circuit R leb rnd ofZ cs w wres = Ok n ->
+  map bid (branches n) = map cid (filter (fun c => has_translator (ck c)) cs)
+  /\ List.length (branches n) = List.length (filter (fun c => has_translator (ck c)) cs)
+  /\ NoDup (map cid (filter (fun c => has_translator (ck c)) cs))
+  /\ (forall c, In c cs -> ck c <> KGround -> exists b, In b (branches n) /\ bid b = cid c)
+  /\ (forall b, In b (branches n) -> exists c, In c cs /\ ck c <> KGround /\ cid c = bid b).
+Proof. exact one_each. Qed.
+Print Assumptions C07_one_each.
+
+(* the k-th branch runs from the first to the second listed terminal of the k-th non-ground component *)
+Theorem C07_terminals : forall (R : fops) leb rnd ofZ (cs : list (comp R)) (w wres : R) (n : network (Cx R)),
+  transform_circuit R leb rnd ofZ cs w wres = Ok n ->
+  Forall2 (fun c b => nth_error (cnodes c) 0 = Some (node1 b) /\ nth_error (cnodes c) 1 = Some (node2 b))
+          (filter (fun c => has_translator (ck c)) cs) (branches n).
+Proof. exact terminals. Qed.
+Print Assumptions C07_terminals.
+
+(* ... and is the translation of that very component *)
+Theorem C07_each_translated : forall (R : fops) leb rnd ofZ (cs : list (comp R)) (w wres : R) (n : network (Cx R)),
+  transform_circuit R leb rnd ofZ cs w wres = Ok n ->
+  Forall2 (fun c b => translate R leb rnd ofZ c w wres = Ok b) (filter (fun c => has_translator (ck c)) cs) (branches n).
+Proof. exact each_translated. Qed.
+Print Assumptions C07_each_translated.
+
+(* reference node: the first node of the (unique) ground component, else the first node of the first component *)
+Theorem C07_ground : forall (R : fops) leb rnd ofZ (cs : list (comp R)) (w wres : R) (n : network (Cx R)),
+  transform_circuit R leb rnd ofZ cs w wres = Ok n ->
+  ground_node R cs = Ok (zero n)
+  /\ NoDup (map cid cs)
+  /\ (List.length (filter (is_ground R) cs) <= 1)%nat
+  /\ (forall gc, In gc cs -> ck gc = KGround -> nth_error (cnodes gc) 0 = Some (zero n))
+  /\ ((forall c, In c cs -> ck c <> KGround) ->
+      match cs with [] => zero n = [] | c0 :: _ => nth_error (cnodes c0) 0 = Some (zero n) end).
+Proof. exact ground_thm. Qed.
+Print Assumptions C07_ground.
+
+(* more than one ground component: never a network; MultipleGroundNodes provided every ground component lists a node
+   (otherwise Python raises IndexError first) *)
+Theorem C07_multiple_ground : forall (R : fops) leb rnd ofZ (cs : list (comp R)) (w wres : R),
+  (1 < List.length (filter (is_ground R) cs))%nat ->
+  (forall n, transform_circuit R leb rnd ofZ cs w wres <> Ok n)
+  /\ ((forall c, In c cs -> ck c = KGround -> cnodes c <> []) -> transform_circuit R leb rnd ofZ cs w wres = Err EMultipleGround).
+Proof. exact multiple_ground. Qed.
+Print Assumptions C07_multiple_ground.
+
+(* duplicate identifiers: never a network; AmbiguousComponentID when the earlier checks pass *)
+Theorem C07_duplicate_ids : forall (R : fops) leb rnd ofZ (cs : list (comp R)) (w wres : R),
+  ~ NoDup (map cid cs) ->
+  (forall n, transform_circuit R leb rnd ofZ cs w wres <> Ok n)
+  /\ ((List.length (filter (is_ground R) cs) <= 1)%nat -> (forall c, In c cs -> cnodes c <> []) ->
+      transform_circuit R leb rnd ofZ cs w wres = Err EAmbiguousComponent).
+Proof. exact duplicate_ids. Qed.
+Print Assumptions C07_duplicate_ids.
+
+(* the law of each component at w, in the property's words.  v = voltage first -> second terminal, i = flow first ->
+   second terminal; [hasv c k x]: x is stored under key k of c's own value dictionary; [cis c] = exp(j*phi) of c's own
+   phase; [far a b tol] : |a - b| > tol;  [cj] the imaginary unit.
+     vsrc_law_r V r v i := (r = 0 -> v = V) /\ (r <> 0 -> r*i = V + v)      (the library's convention for lossy sources)
+     vsrc_law   V Z v i := (Z = 0 -> v = V) /\ (Z <> 0 -> Z*i = V + v)
+     isrc_law   I Y v i := i = I + Y*v *)
+Theorem C07_comp_law_unfolded : forall (R : fops) leb rnd ofZ (c : comp R) (w wres : R) (v i : Cx R),
+  let C := Cx R in
+  let cre := cre R in let hasv := hasv R in let cj := cj R in let cis := cis R in let far := far R leb in
+  let mul := fmul C in
+  comp_law R leb rnd ofZ c w wres v i =
+  match ck c with
+  | KResistor => exists r, hasv c "R"%string r /\ v = mul (cre r) i
+  | KConductance => exists g, hasv c "G"%string g /\ i = mul (cre g) v
+  | KImpedance => exists r x, hasv c "R"%string r /\ hasv c "X"%string x /\ v = mul ((r, x) : C) i
+  | KAdmittance => exists g bb, hasv c "G"%string g /\ hasv c "B"%string bb /\ i = mul ((g, bb) : C) v
+  | KCapacitor => exists cv, hasv c "C"%string cv /\ i = mul (mul (mul cj (cre w)) (cre cv)) v
+  | KInductance => exists l, hasv c "L"%string l /\ v = mul (mul (mul cj (cre w)) (cre l)) i
+  | KLamp | KResLoad => exists p vr, hasv c "P"%string p /\ hasv c "V_ref"%string vr
+                                     /\ i = mul (cre (fdiv R p (fmul R vr vr))) v
+  | KShort => v = f0 C
+  | KDcV => exists V r ws, hasv c "V"%string V /\ hasv c "R"%string r /\ hasv c "w"%string ws /\
+      (far w ws wres -> v = f0 C) /\ (~ far w ws wres -> vsrc_law_r R (cre V) r v i)
+  | KAcV => exists V r ws, hasv c "V"%string V /\ hasv c "R"%string r /\ hasv c "w"%string ws /\
+      (far w ws wres -> v = f0 C) /\ (~ far w ws wres -> vsrc_law_r R (mul (cre V) (cis c)) r v i)
+  | KCplxV => exists vr vi r x, hasv c "V_real"%string vr /\ hasv c "V_imag"%string vi /\ hasv c "R"%string r
+                                /\ hasv c "X"%string x /\ vsrc_law R (vr, vi) (r, x) v i
+  | KPerV => exists w0, hasv c "w"%string w0 /\
+      let n := rnd (fdiv R w w0) in
+      (far (fdiv R w w0) (ofZ n) (fdiv R wres w0) -> v = f0 C) /\
+      (~ far (fdiv R w w0) (ofZ n) (fdiv R wres w0) ->
+         exists a cs sn r, hlook R (charm c) n = Some (a, (cs, sn)) /\ hasv c "R"%string r /\
+                           vsrc_law_r R (mul (cre a) ((cs, sn) : C)) r v i)
+  | KDcI => exists I g ws, hasv c "I"%string I /\ hasv c "G"%string g /\ hasv c "w"%string ws /\
+      (far w ws wres -> i = f0 C) /\ (~ far w ws wres -> isrc_law R (cre I) (cre g) v i)
+  | KAcI => exists I g ws, hasv c "I"%string I /\ hasv c "G"%string g /\ hasv c "w"%string ws /\
+      (far w ws wres -> i = f0 C) /\ (~ far w ws wres -> isrc_law R (mul (cre I) (cis c)) (cre g) v i)
+  | KCplxI => exists ir ii g bb, hasv c "I_real"%string ir /\ hasv c "I_imag"%string ii /\ hasv c "G"%string g
+                                 /\ hasv c "B"%string bb /\ isrc_law R (ir, ii) (g, bb) v i
+  | KPerI => exists w0, hasv c "w"%string w0 /\
+      let n := rnd (fdiv R w w0) in
+      (far (fdiv R w w0) (ofZ n) (fdiv R wres w0) -> i = f0 C) /\
+      (~ far (fdiv R w w0) (ofZ n) (fdiv R wres w0) ->
+         exists a cs sn g, hlook R (charm c) n = Some (a, (cs, sn)) /\ hasv c "G"%string g /\
+                           isrc_law R (mul (cre a) ((cs, sn) : C)) (cre g) v i)
+  | KGround => False
+  end.
+Proof. reflexivity. Qed.
+
+Theorem C07_law_vocabulary : forall (R : fops) leb (c : comp R) (k : string) (x a b tol : R) (V Z I Y v i : Cx R) (r : R),
+  (hasv R c k x <-> vlook R (cvals c) (lbl k) = Some x)
+  /\ cj R = (f0 R, f1 R) /\ cis R c = ccis c
+  /\ (far R leb a b tol <-> leb (rabs R leb (fsub R a b)) tol = false)
+  /\ (vsrc_law R V Z v i <-> (Z = f0 (Cx R) -> v = V) /\ (Z <> f0 (Cx R) -> fmul (Cx R) Z i = fadd (Cx R) V v))
+  /\ (vsrc_law_r R V r v i <-> (r = f0 R -> v = V) /\ (r <> f0 R -> fmul (Cx R) (cre R r) i = fadd (Cx R) V v))
+  /\ (isrc_law R I Y v i <-> i = fadd (Cx R) I (fmul (Cx R) Y v)).
+Proof. intros. unfold hasv, cj, cis, far, vsrc_law, vsrc_law_r, isrc_law. repeat split; auto; tauto. Qed.
+
+(* the branch made from a component obeys exactly the component's law *)
+Theorem C07_faithful : forall (R : fops) (ROK : fops_ok R)
+  (Rreal : forall x y : R, fadd R (fmul R x x) (fmul R y y) = f0 R -> x = f0 R /\ y = f0 R)
+  leb rnd ofZ (c : comp R) (w wres : R) (b : branch (Cx R)) (phi : label -> Cx R) (j : branch (Cx R) -> Cx R),
+  translate R leb rnd ofZ c w wres = Ok b ->
+  (law phi j b <-> comp_law R leb rnd ofZ c w wres (bvolt phi b) (j b)).
+Proof. exact translate_faithful. Qed.
+Print Assumptions C07_faithful.
+
+(* ================= non-vacuity: concrete circuits over the rationals ================= *)
+Definition mkc (k : ckind) (id : string) (nodes : list string) (vals : list (string * Qc)) : qcomp :=
+  @Build_comp Qcops k (lbl id) (map lbl nodes) (map (fun p => (lbl (fst p), snd p)) vals) [] (qc 3 5, qc 4 5) [].
+Definition mkp (k : ckind) (id : string) (nodes : list string) (vals : list (string * Qc)) harm : qcomp :=
+  @Build_comp Qcops k (lbl id) (map lbl nodes) (map (fun p => (lbl (fst p), snd p)) vals) (lbl "rect") (qc 1 1, qc 0 1) harm.
+Definition q (n : Z) (d : positive) : Qc := qc n d.
+
+(* an ac source at w = 2 with phase cis = 3/5 + 4/5 j, R-C-L ladder, an off-frequency dc current source, a lossy ac
+   source, a periodic current source whose 2nd harmonic is at w, and a ground component listed last *)
+Definition ex_cs : list qcomp := [
+  mkc KAcV "V1" ["1"; "0"] [("V", q 5 1); ("R", q 0 1); ("w", q 2 1); ("phi", q 1 1)];
+  mkc KResistor "R1" ["1"; "2"] [("R", q 2 1)];
+  mkc KCapacitor "C1" ["2"; "0"] [("C", q 1 4)];
+  mkc KInductance "L1" ["2"; "3"] [("L", q 1 1)];
+  mkc KConductance "G1" ["3"; "0"] [("G", q 1 2)];
+  mkc KDcI "I1" ["0"; "3"] [("I", q 1 1); ("G", q 0 1); ("w", q 0 1); ("phi", q 0 1)];
+  mkc KAcV "V2" ["3"; "0"] [("V", q 1 1); ("R", q 1 1); ("w", q 2 1); ("phi", q 1 1)];
+  mkp KPerI "P1" ["0"; "2"] [("wavetype", q 0 1); ("I", q 1 1); ("w", q 1 1); ("phi", q 0 1); ("G", q 1 10)]
+      [(0%Z, (q 1 2, (q 1 1, q 0 1))); (2%Z, (q 1 3, (q 0 1, q 1 1)))];
+  mkc KGround "gnd" ["0"] [] ]%string.
+Definition ex_w : Qc := q 2 1.
+Definition ex_wres : Qc := q 1 1000.
+
+Example C07_example_transforms :
+  okb (q_transform ex_cs ex_w ex_wres)
+      (fun n => Nat.eqb (List.length (branches n)) 8 && label_eqb (zero n) (lbl "0")
+                && lleqb (map bid (branches n)) (map lbl ["V1"; "R1"; "C1"; "L1"; "G1"; "I1"; "V2"; "P1"]%string)) = true.
+Proof. vm_compute. reflexivity. Qed.
+Example C07_example_transforms' : exists n, q_transform ex_cs ex_w ex_wres = Ok n.
+Proof. destruct (okb_ex _ _ C07_example_transforms) as [n [H _]]. exists n. exact H. Qed.
+
+(* one component of every non-ground kind translates (hypothesis of C07_faithful) *)
+Definition ex_all : list qcomp := [
+  mkc KResistor "a" ["1"; "2"] [("R", q 2 1)];
+  mkc KConductance "b" ["1"; "2"] [("G", q 2 1)];
+  mkc KCapacitor "c" ["1"; "2"] [("C", q 2 1)];
+  mkc KInductance "d" ["1"; "2"] [("L", q 2 1)];
+  mkc KImpedance "e" ["1"; "2"] [("R", q 2 1); ("X", q (-1) 1)];
+  mkc KAdmittance "f" ["1"; "2"] [("G", q 2 1); ("B", q 1 3)];
+  mkc KDcV "g" ["1"; "2"] [("V", q 2 1); ("R", q 1 1); ("w", q 0 1); ("phi", q 0 1)];
+  mkc KAcV "h" ["1"; "2"] [("V", q 2 1); ("R", q 1 1); ("w", q 2 1); ("phi", q 1 1)];
+  mkc KCplxV "i" ["1"; "2"] [("V_real", q 2 1); ("V_imag", q 1 1); ("R", q 0 1); ("X", q 0 1)];
+  mkp KPerV "j" ["1"; "2"] [("wavetype", q 0 1); ("V", q 1 1); ("w", q 1 1); ("phi", q 0 1); ("R", q 1 10)]
+      [(2%Z, (q 1 3, (q 0 1, q 1 1)))];
+  mkc KDcI "k" ["1"; "2"] [("I", q 2 1); ("G", q 1 1); ("w", q 0 1); ("phi", q 0 1)];
+  mkc KAcI "l" ["1"; "2"] [("I", q 2 1); ("G", q 1 1); ("w", q 2 1); ("phi", q 1 1)];
+  mkc KCplxI "m" ["1"; "2"] [("I_real", q 2 1); ("I_imag", q 1 1); ("G", q 0 1); ("B", q 0 1)];
+  mkp KPerI "n" ["1"; "2"] [("wavetype", q 0 1); ("I", q 1 1); ("w", q 1 1); ("phi", q 0 1); ("G", q 1 10)]
+      [(2%Z, (q 1 3, (q 0 1, q 1 1)))];
+  mkc KLamp "o" ["1"; "2"] [("P", q 40 1); ("V_ref", q 12 1)];
+  mkc KResLoad "p" ["1"; "2"] [("P", q 40 1); ("V_ref", q 12 1)];
+  mkc KShort "q" ["1"; "2"] [] ]%string.
+Example C07_example_every_kind :
+  map ck ex_all = removelast all_kinds
+  /\ forallb (fun c => match translate Qcops Qc_leb Qc_round Qc_ofZ c ex_w ex_wres with Ok _ => true | Err _ => false end) ex_all = true.
+Proof. split; vm_compute; reflexivity. Qed.
+
+Example C07_example_multiple_ground :
+  match q_transform (mkc KGround "g2" ["1"] [] :: ex_cs)%string ex_w ex_wres with Err EMultipleGround => true | _ => false end = true.
+Proof. vm_compute. reflexivity. Qed.
+Example C07_example_duplicate_ids :
+  match q_transform (mkc KResistor "R1" ["3"; "0"] [("R", q 1 1)] :: ex_cs)%string ex_w ex_wres with
+  | Err EAmbiguousComponent => true | _ => false end = true.
+Proof. vm_compute. reflexivity. Qed.
+Example C07_example_no_ground_first_terminal :
+  okb (q_transform (removelast ex_cs) ex_w ex_wres) (fun n => label_eqb (zero n) (lbl "1")) = true.
+Proof. vm_compute. reflexivity. Qed.
